@@ -138,6 +138,11 @@ func propertyFailsL(prop, op, res, lean string) (why string) {
 			if w := unitOracle(base, kind, args, res); w != "" {
 				return w
 			}
+			if base == "nackpairs" {
+				if w := nackOracle(base, args, res); w != "" {
+					return w
+				}
+			}
 			if base == "decp" && kind == "HDR" {
 				if n := len(NewR(args).H()); n < 4 && isOK {
 					return fmt.Sprintf("Header.Unmarshal accepted %d octets (memory behind the slice was read)", n)
@@ -232,6 +237,9 @@ func propertyFailsL(prop, op, res, lean string) (why string) {
 				return w
 			}
 		}
+		if base == "dec" && kind == "CCFB" && res == "err" && ccfbValidLib(NewR(args).H()) {
+			return "a CCFB report whose blocks tile the packet exactly and stay within the sequence space is rejected"
+		}
 		if base == "dec" && kind == "CCFB" && hasPrefix(res, "ok ") {
 			if w := ccfbDecOracle(NewR(args).H(), res[3:]); w != "" {
 				return w
@@ -287,9 +295,6 @@ func propertyFailsL(prop, op, res, lean string) (why string) {
 		}
 		if base == "framed" && hasPrefix(res, "ok ") {
 			p := getBody(NewR(args), kind)
-			if kind == "TWCC" && !twccConsistent(p.(*rtcp.TransportLayerCC)) {
-				return ""
-			}
 			if kind == "RAW" && !wfPacket(p) {
 				return ""
 			}
@@ -300,6 +305,9 @@ func propertyFailsL(prop, op, res, lean string) (why string) {
 			}
 			if l != sz {
 				return fmt.Sprintf("len %d != MarshalSize %d", l, sz)
+			}
+			if kind == "TWCC" && !twccConsistent(p.(*rtcp.TransportLayerCC)) {
+				return "" // the header clauses are for a caller-supplied header consistent with the content
 			}
 			if l%4 != 0 {
 				return tagged(fmt.Sprintf("len %d not a multiple of 4", l), p, tagXR)
@@ -343,6 +351,14 @@ func propertyFailsL(prop, op, res, lean string) (why string) {
 	case "C06":
 		if hasPrefix(res, "panic") {
 			return "datagram decoder panicked"
+		}
+		if base == "reuse" && kind == "COMPOUND" {
+			if hasPrefix(res, "mutated") {
+				return "decoding a datagram changed packets returned for an earlier one: " + res
+			}
+			if w := reuseFails(base, kind, args, res); w != "" {
+				return w
+			}
 		}
 		if base == "concat" && isOK {
 			parts := splitSemi(res[3:])
@@ -421,6 +437,14 @@ func propertyFailsL(prop, op, res, lean string) (why string) {
 		}
 		if base == "rt" {
 			return rtOracle(args, res, true)
+		}
+		if base == "rembto" && isOK {
+			// MarshalTo is a Marshal too: what it wrote must come back as a REMB
+			if f := fieldsOf(res); len(f) == 3 {
+				if back := execOp("udec " + f[2]); !hasPrefix(back, "ok 1 REMB ") {
+					return "the bytes written by ReceiverEstimatedMaximumBitrate.MarshalTo are not returned as a REMB by the datagram decoder: " + clip(back, 40)
+				}
+			}
 		}
 		if base == "udec" && isOK && len(res) > 3 {
 			// a frame of an unregistered (type, FMT) comes back as a RawPacket holding exactly that frame
@@ -577,6 +601,11 @@ func propertyFailsL(prop, op, res, lean string) (why string) {
 				return "DestinationSSRC differs from the documented list"
 			}
 		}
+		if base == "crt" {
+			if w := crtOracle(args, res); w != "" {
+				return w
+			}
+		}
 		if base == "rtdst" && res == "err" {
 			if ps := getPackets(NewR(args)); len(ps) == 1 && wfPacket(ps[0]) {
 				return "Marshal rejects a well-formed " + kindName(ps[0]) + ": its DestinationSSRC cannot survive a round trip"
@@ -700,6 +729,11 @@ func propertyFailsL(prop, op, res, lean string) (why string) {
 		}
 		if base == "enc" && kind == "XR" && isOK {
 			return xrOracle(args, res)
+		}
+		if base == "dec" && kind == "XR" && lean != "" && lean == "err" && isOK {
+			// what makes a block malformed (content not filling its declared length in whole elements, ...) is fixed by
+			// the decoding rules the model formalises; the unchanged decoder follows them on every compared line
+			return "an extended report with a block that the decoding rules reject as malformed is accepted"
 		}
 		if base == "dec" && kind == "XR" && hasPrefix(res, "ok ") {
 			return xrDecOracle(NewR(args).H(), res[3:])
